@@ -17,6 +17,7 @@ EXPLANATION = (
     "_perform_* iteration moves exactly one element between the stacks.  R11.4: the dependency test is symmetric in "
     "containment.  R11.5: undo(drop=True) deletes exactly the N redo entries it just created.  R11.6: the properties of History (the limit among them) are pure read-throughs (no store into self).  Decides inverse *shape*, not content equality of trees."
     " R11.9: the saved undo/redo lists are rebuilt in the order they were saved (writer direction x loader direction x insertion end, per slot).  R11.10: every constant-index pick of 'the last change' in undo/redo is [-1] (changes are appended)."
+    ' R11.11: a change is recorded for undo as soon as one of its resources is not ignored.'
 )
 ASSUMPTIONS = ["_ResourceOperations primitives do what their names say (C13/C16 check notify and codec separately)"]
 
